@@ -39,7 +39,11 @@ def strategy(draw):
                            centre=draw(gen.floats(0.25, 0.75)), sigma=draw(gen.log_floats(0.005, 0.15)),
                            outlier_frac=draw(st.sampled_from([0.0, 0.1, 0.25, 0.4])), outlier_sigma=draw(gen.floats(0.05, 0.3)),
                            bimodal=draw(st.sampled_from([0.0, 0.0, 0.08, 0.2, 0.35])), bimodal_frac=draw(gen.floats(0.15, 0.5)),
-                           second_bump=draw(st.booleans())))
+                           second_bump=draw(st.booleans()),
+                           # a coherent group of outlier windows with much larger amplitudes (a transient source): the peak of
+                           # the mean curve starts at the outliers' frequency and moves once they are rejected
+                           outlier_gain=draw(st.sampled_from([1, 1, 1, 8, 40])), outlier_shift=draw(st.sampled_from([-0.3, 0.25, 0.35, 0.45])),
+                           outlier_block=draw(st.sampled_from([None, None, 0.0, 0.3, 0.6, 1.0]))))
     rng = [None, None]
     if draw(gen.chance(3)):
         lo = draw(st.one_of(st.none(), st.sampled_from(f[: nf // 2]), gen.floats(f[0] * 0.5, f[nf // 2]), st.sampled_from([0.0, -float("inf")])))
@@ -53,7 +57,7 @@ def strategy(draw):
                 pre_td=pre_td)
 
 
-BIG = {"quick": 16, "thorough": 160}
+BIG = {"quick": 64, "thorough": 640}
 
 
 @st.composite
@@ -64,7 +68,12 @@ def strategy_big(draw):
     common = draw(st.one_of(gen.big_size(512, 6000), st.sampled_from([1000, 1001, 1500, 3000])))
     for g in case["groups"][:2]:
         g["nwin"] = common if case["pre_td"] != "none" else draw(st.one_of(gen.big_size(512, 6000), st.sampled_from([1000, 1001, 1500, 3000])))
-        g["outlier_frac"] = draw(st.sampled_from([0.1, 0.25, 0.4]))
+        g["outlier_frac"] = draw(st.sampled_from([0.03, 0.06, 0.1, 0.12, 0.25]))
+        g["outlier_gain"] = draw(st.sampled_from([1, 8, 40, 40]))
+        g["outlier_block"] = draw(st.sampled_from([None, 0.1, 0.3, 0.5, 0.7]))
+        g["outlier_shift"] = draw(st.sampled_from([-0.4, 0.3, 0.4, 0.5]))
+        g["sigma"] = draw(st.sampled_from([g["sigma"], 0.05, 0.08, 0.12]))
+        g["centre"] = 0.5 if g["outlier_shift"] < 0.45 else 0.4
     case["groups"] = case["groups"][:2]
     case["naz"] = min(case["naz"], 2)
     case["big"] = True
@@ -81,11 +90,21 @@ def expand_group(g, f):
         second = r.random(g["nwin"]) < g["bimodal_frac"]
         pos = np.where(second, pos - g["bimodal"], pos)
     out = r.random(g["nwin"]) < g["outlier_frac"]
+    if g.get("outlier_block") is not None:
+        # a transient: the outliers are consecutive windows starting at a drawn position of the recording
+        k = int(round(g["outlier_frac"] * g["nwin"]))
+        start = int(g["outlier_block"] * max(0, g["nwin"] - k))
+        out = np.zeros(g["nwin"], dtype=bool)
+        out[start:start + k] = True
     pos = np.where(out, pos + g["outlier_sigma"] * r.standard_normal(g["nwin"]) * 2, pos)
+    gain = np.ones(g["nwin"])
+    if g.get("outlier_gain", 1) > 1:
+        pos = np.where(out, g["centre"] + g["outlier_shift"] + 0.01 * r.standard_normal(g["nwin"]), pos)
+        gain = np.where(out, float(g["outlier_gain"]), 1.0)
     pos = np.clip(pos, 0.06, 0.94)
     A = []
-    for p in pos:
-        a = 1.0 + r.uniform(1.5, 6) * np.exp(-0.5 * ((x - p) / r.uniform(0.02, 0.07)) ** 2)
+    for p, k in zip(pos, gain):
+        a = 1.0 + k * r.uniform(1.5, 6) * np.exp(-0.5 * ((x - p) / r.uniform(0.02, 0.07)) ** 2)
         if g["second_bump"]:
             a = a + r.uniform(0.1, 0.6) * np.exp(-0.5 * ((x - r.uniform(0.05, 0.95)) / 0.05) ** 2)
         A.append(a)
@@ -117,6 +136,7 @@ def ref_fdwr(f, A, n, max_it, dfn, dmc, rng):
     pk = np.array([f[i] if i is not None else np.nan for i in pk_idx])
     valid = has.copy()
     masks = [valid.copy()]
+    trace = []
     margin = math.inf
 
     def stats(v):
@@ -158,6 +178,7 @@ def ref_fdwr(f, A, n, max_it, dfn, dmc, rng):
         if mc1 is None:
             return dict(status="degenerate", masks=masks)
         d1 = abs(m1 - mc1)
+        trace.append(dict(mean_fn_before=m0, std_fn_before=s0, mc_peak_frq_before=mc0, mean_fn_after=m1, std_fn_after=s1, mc_peak_frq_after=mc1))
         # "zero" = at the level of floating-point round-off (all accepted windows share one peak frequency,
         # or the mean fn sits exactly on the mean-curve peak): the loop stops here.  Values between 1e-13 and
         # 1e-7 are neither clearly zero nor clearly non-zero -> knife edge.
@@ -165,24 +186,32 @@ def ref_fdwr(f, A, n, max_it, dfn, dmc, rng):
         if any(1e-13 < v < 1e-7 for v in trio):
             margin = 0.0
         if any(v < 1e-10 for v in trio):
-            return dict(status="ok", valid=valid, count=it, margin=margin, masks=masks, zero_stop=True)
+            return dict(status="ok", valid=valid, count=it, margin=margin, masks=masks, zero_stop=True, trace=trace)
         dd = abs(d1 - d0) / d0 if d0 > 0 else math.inf
         sd = abs(s1 - s0)
         margin = min(margin, abs(dd - 0.01), abs(sd - 0.01))
         if dd < 0.01 and sd < 0.01:
-            return dict(status="ok", valid=valid, count=it, margin=margin, masks=masks)
-    return dict(status="ok", valid=valid, count=max_it, margin=margin, masks=masks, hit_limit=True)
+            return dict(status="ok", valid=valid, count=it, margin=margin, masks=masks, trace=trace)
+    return dict(status="ok", valid=valid, count=max_it, margin=margin, masks=masks, hit_limit=True, trace=trace)
 
 
 class _Capture(logging.Handler):
     def __init__(self):
         super().__init__(level=logging.DEBUG)
         self.window_masks = []
+        self.iterations = []          # one dict of logged intermediate values per iteration, in order
 
     def emit(self, record):
         msg = record.getMessage()
+        m = re.match(r"\s*(mean_fn_before|std_fn_before|mc_peak_frq_before|mean_fn_after|std_fn_after|mc_peak_frq_after): (\S+)$", msg)
+        if m and self.iterations:
+            try:
+                self.iterations[-1][m.group(1)] = float(m.group(2))
+            except ValueError:
+                pass
         if msg.startswith("c_iteration"):
             self.window_masks.append(None)
+            self.iterations.append({})
         elif msg.startswith("valid_window_boolean_mask:"):
             toks = re.findall(r"True|False", msg)
             self.window_masks.append(np.array([t == "True" for t in toks]))
@@ -203,6 +232,7 @@ def _run(hv, obj, case, rng):
         logger.removeHandler(cap)
         logger.setLevel(old_level)
         logger.propagate = old_prop
+    _run.last_iterations = cap.iterations
     return count, cap.window_masks
 
 
@@ -241,6 +271,7 @@ def check_case(case):
         labels.append("after-time-domain-rejection")
     try:
         count, logs = _run(hv, obj, case, rng)
+        first_iterations = _run.last_iterations
     except Refusal as r:
         if all(rf["status"] == "ok" for rf in refs) and min(rf["margin"] for rf in refs) >= 1e-9:
             raise Violation(f"frequency_domain_window_rejection raised {r.exc!r} on a case the published algorithm handles "
@@ -283,6 +314,22 @@ def check_case(case):
     if count != exp_count:
         raise Violation(f"returned {count} iterations, the published algorithm performs {exp_count} "
                         f"(n={case['n']}, max_iterations={case['max_iterations']}, {case['dist_fn']}/{case['dist_mc']}, range {rng}, per azimuth {[rf['count'] for rf in refs]})")
+    # intermediate quantities of every iteration, from the library's own debug log: mean and spread of the accepted
+    # peak frequencies and the peak of the mean curve before / after the rejection step
+    logged = list(first_iterations)
+    if len(logged) == sum(rf["count"] for rf in refs):
+        pos_ = 0
+        for j, rf in enumerate(refs):
+            for it, (got_it, want_it) in enumerate(zip(logged[pos_:pos_ + rf["count"]], rf["trace"]), start=1):
+                for key, want in want_it.items():
+                    if key not in got_it:
+                        continue
+                    tol = 0.0 if key.startswith("mc_peak") else 1e-9 * abs(want) + 1e-12
+                    if abs(got_it[key] - want) > tol:
+                        raise Violation(f"{'azimuth %d: ' % j if az else ''}iteration {it}: {key} = {got_it[key]!r} in the library's debug log, the published algorithm "
+                                        f"has {want!r} for the windows accepted at that point ({int(rf['masks'][it - 1].sum())} before the step)")
+            pos_ += rf["count"]
+        labels.append("per-iteration-trace")
     # never re-accepts: logged masks (window mask at the start of every iteration) shrink monotonically
     seq = [m for m in logs if m is not None]
     pos = 0
